@@ -14,23 +14,19 @@ func init() {
 
 func checkC12(r *Run) {
 	r.Rule("R1", "every supplied argument is evaluated exactly once, in ascending position: each evaluation of an element of node.Arguments sits in a loop whose index ascends by 1, the loops' ranges are disjoint and cover all positions, and nothing evaluates an argument outside them", 2)
-	r.Rule("R2", "guarded append: every value appended to the argument vector is shown assignable to the parameter it is passed for (AssignableTo / Convert / zero value of that very type) and a mismatch returns an error that names the call", 6)
+	r.Rule("R2", "guarded append: every value appended to the argument vector is shown assignable to the parameter it is passed for (AssignableTo / Convert / zero value of that very type) and a mismatch returns an error that names the call", 4)
 	r.Rule("R3", "arity before call: every path to reflect.Value.Call passes the too-many (fixed) or too-few (variadic) test, Kind() == Func and the nil-func test; for fixed signatures len(args) == NumIn is established by the two post-fill tests", 2)
 	r.Rule("R4", "nil becomes the zero value of the expected type: the three 'argument is nil' sites build reflect.New(T).Elem() (or reflect.Zero(T)) with T the same type the assignability test of that site uses", 1)
-	r.Rule("R5", "auto-supplied trailing parameters only when arguments are missing; the helper context is built from the current scope, the evaluator and the call's block; the options map is a fresh empty map", 3)
+	r.Rule("R5", "auto-supplied trailing parameters only when arguments are missing; the helper context is built from the current scope, the evaluator and the call's block; the options map is a fresh empty map", 2)
 	r.Rule("R6", "the call's value is the first result, guarded by len(results) > 0", 1)
 	w := r.W
 	f := w.evalMethod("CallExpression")
-	evalExpr := w.evalMethod("Expression")
-	if f == nil || evalExpr == nil {
+	if f == nil || w.evalMethod("Expression") == nil {
 		r.Lost("R1", "call evaluator")
 		return
 	}
-	c12Evaluations(r, f, evalExpr)
-	c12Appends(r, f)
-	c12Arity(r, f)
-	c12AutoSupply(r, f)
-	c12Results(r, f)
+	c12EvaluationsSSA(r)
+	checkC12SSA(r)
 	r.Rule("R7", "a non-nil trailing error result fails the render: the call site inspects the last result for an error and returns before the first result is used (also in the chained-call branch)", 1)
 	reflectResultRuleAs(r, "R7")
 }
